@@ -105,10 +105,9 @@ def grpAdvLine (toks : Array String) : List Msg :=
           let lfOk := match hexNat lf with
             | some b => Float.ofBits (UInt64.ofNat b) == (if t.lfDen == 0 then 0 else Float.ofNat t.lfNum / Float.ofNat t.lfDen) || (t.lfNum == 0 && b == 0)
             | none => false
-          -- RelocationCollisions is not compared: the implementation also counts the probes made while "re-placing" empty
-          -- entries during grow(); the mirror counts occupied entries only (a statistic no property speaks about)
-          let _ := rcoll
-          if mg == groups && md == d && t.relocCount == rc && t.insertCollisions == icoll && t.groupCount == gc && lfOk then
+          -- RelocationCollisions: the implementation also counts the probes made while "re-placing" EMPTY entries during
+          -- grow(); the mirror follows it (`G.skipFrom`), so this statistic is compared exactly as well
+          if mg == groups && md == d && t.relocCount == rc && t.relocCollisions == rcoll && t.insertCollisions == icoll && t.groupCount == gc && lfOk then
             [{ cls := "OK", op := "grpadv", kind := "", detail := "" }]
           else
             [{ cls := "MIRROR-MISMATCH", op := "grpadv", kind := "table", detail := s!"keys {keys} hashes {hashes}: table mirror gives groups {mg} distinct {md} stats ({t.relocCount},{t.relocCollisions},{t.insertCollisions},{t.groupCount},{t.lfNum}/{t.lfDen}); implementation groups {groups} distinct {d} stats ({rc},{rcoll},{icoll},{gc},{lf})" }]
